@@ -16,13 +16,68 @@ Theorem c09_sealed_inert : forall (s : state) (p : list hstep),
   readyz s = 503.
 Proof. exact sealed_inert. Qed.
 
-(* The signer appears only through an injection over TLS, with a verified client chain, carrying
-   exactly the passphrase of the key file; that injection is answered 200 and installs the key of the file. *)
+(* What the handler sees of the connection is the record http.Request.TLS: nil, or a connection state with
+   PeerCertificates (what the client PRESENTED) and VerifiedChains (what crypto/tls VERIFIED against the
+   client CA pool).  The signer appears only through an injection whose connection state exists and carries
+   a first verified chain with a leaf (VerifiedChains[0][0], the certificate the handler names in its log),
+   and whose field is exactly the passphrase of the key file; that injection is answered 200 and installs the
+   key of the file.  PeerCertificates does not occur in the conclusion: a certificate that was merely
+   presented (self-signed, of a foreign CA, the admin certificate itself but unverified, expired) opens nothing. *)
 Theorem c09_only_right_pass : forall c s r s' code,
   inject c s r = (s', code) -> signer s = None -> signer s' <> None ->
-  i_tls r = true /\ i_chain r = true /\ i_field r = Some (right_pass c) /\ code = 200 /\
-  signer s' = Some (main_key c).
+  (exists cs leaf rest chains, i_conn r = Some cs /\ verified_chains cs = (leaf :: rest) :: chains) /\
+  i_field r = Some (right_pass c) /\ code = 200 /\ signer s' = Some (main_key c).
 Proof. exact only_right_pass. Qed.
+
+(* PeerCertificates is never consulted: requests that differ only in what was presented are treated alike *)
+Theorem c09_presented_irrelevant : forall c s cs pcs field,
+  inject c s {| i_conn := Some {| peer_certs := pcs; verified_chains := verified_chains cs |}; i_field := field |} =
+  inject c s {| i_conn := Some cs; i_field := field |}.
+Proof. exact presented_irrelevant. Qed.
+
+(* A connection state without verified chain - whatever was presented, whatever the passphrase - is answered 403
+   and changes nothing. *)
+Theorem c09_presented_only_refused : forall c s r cs,
+  i_conn r = Some cs -> verified_chains cs = [] -> inject c s r = (s, 403).
+Proof. exact presented_only_refused. Qed.
+
+(* NOT the code: the variant "a presented certificate suffices" (inject_presented: the leaf of the first non-empty
+   verified chain, else PeerCertificates[0]).  A sealed server, VerifiedChains empty, a self-signed certificate
+   presented, the right passphrase: that variant unseals and answers 200; the code's handler answers 403 and
+   leaves the state as it was. *)
+Theorem c09_presented_suffices_refuted :
+  exists c s r, signer s = None /\ i_chains r = [] /\ i_presented r <> [] /\
+    signer (fst (inject_presented c s r)) <> None /\ snd (inject_presented c s r) = 200 /\
+    inject c s r = (s, 403).
+Proof. exact presented_suffices_refuted. Qed.
+
+(* Whatever listener stands in front of the handler: crypto/tls with ANY ClientAuth policy (none, request, require
+   any, verify if given, require and verify), ANY client CA pool, ANY presented certificate (described by its
+   issuer and whether it has expired) or none, ANY field.  The signer appears only if the request reached the
+   handler over a listener that verifies, the presented certificate verifies against the pool (issuer in the
+   pool, not expired), and the field is exactly the passphrase.  In particular a listener that asks for but
+   does not verify client certificates (RequestClientCert / RequireAnyClientCert) never unseals. *)
+Theorem c09_any_listener : forall policy pool presented field c s reached s' code,
+  inject_over policy pool c s presented field = (reached, s', code) ->
+  signer s = None -> signer s' <> None ->
+  reached = true /\
+  (policy = VerifyClientCertIfGiven \/ policy = RequireAndVerifyClientCert) /\
+  (exists x, presented = Some x /\ cert_verifies pool x = true) /\
+  field = Some (right_pass c) /\ code = 200 /\ signer s' = Some (main_key c).
+Proof. exact any_listener. Qed.
+
+Theorem c09_unverifying_listener_never_unseals : forall policy pool presented field c s,
+  (policy = NoClientCert \/ policy = RequestClientCert \/ policy = RequireAnyClientCert) ->
+  signer s = None ->
+  let '(_, s', code) := inject_over policy pool c s presented field in s' = s /\ code <> 200.
+Proof. exact unverifying_listener_never_unseals. Qed.
+
+(* The predicate the correspondence evaluates on OBSERVED injection sequences (seq_violation: a step after which
+   the real server is unsealed although the step's connection record has no verified chain with a leaf, or its
+   field is not the passphrase) flags nothing on the model's own run from any state. *)
+Theorem c09_observation_predicate_sound : forall c ops s,
+  seq_violation c (negb (is_some (signer s))) ops (inject_run c s ops) = 0.
+Proof. intros c ops s. exact (seq_violation_model c ops s). Qed.
 
 (* A wrong passphrase, or a request without TLS / verified chain, changes nothing at all and is not answered 200. *)
 Theorem c09_wrong_pass_unchanged : forall c s r p,
@@ -49,10 +104,11 @@ Theorem c09_refused_still_sealed : forall c s r,
   ready_sent (fst (inject c s r)) = ready_sent s /\ pubkeys (fst (inject c s r)) = pubkeys s.
 Proof. exact refused_still_sealed. Qed.
 
-(* exactly which injections a sealed server answers with 200 *)
+(* exactly which injections a sealed server answers with 200 (i_tls: r.TLS != nil; i_chain: VerifiedChains non-empty;
+   i_leaf: VerifiedChains[0][0] exists - an empty first chain makes the handler panic, code_panic, nothing changes) *)
 Theorem c09_accepted_iff : forall c s r, signer s = None ->
   (snd (inject c s r) = 200 <->
-   i_tls r = true /\ i_chain r = true /\ exists p, i_field r = Some p /\ all_good c p = true).
+   i_tls r = true /\ i_chain r = true /\ i_leaf r <> None /\ exists p, i_field r = Some p /\ all_good c p = true).
 Proof. exact accepted_iff. Qed.
 
 (* The auto-unseal path (unseal.go tryAwsUnseal: the secret stored in the cloud secret manager is
@@ -175,7 +231,7 @@ Definition ex_cfg : cfg :=
 (* non-vacuity of c09_refused_unchanged: each way a key file can be unusable is refused with 400 and
    changes nothing *)
 Example c09_refused_examples :
-  let r := {| i_tls := true; i_chain := true; i_field := Some [112; 119] |} in
+  let r := admin_inj (Some [112; 119]) in
   let bad m e := {| right_pass := [112; 119]; main_key := 1; main_res := m; role_ok := true;
                     ed_file := Some ([112; 119], 2, e); extra_pubkeys := [9] |} in
   forallb (fun c => (snd (inject c (sealed_init c) r) =? 400) && negb (is_some (signer (fst (inject c (sealed_init c) r))))
@@ -186,7 +242,7 @@ Proof. vm_compute. reflexivity. Qed.
 
 (* the right passphrase with a verified chain does unseal, and a handler then signs with published keys *)
 Example c09_right_pass_unseals :
-  let r := {| i_tls := true; i_chain := true; i_field := Some [112; 119] |} in
+  let r := admin_inj (Some [112; 119]) in
   let s := fst (inject ex_cfg (sealed_init ex_cfg) r) in
   snd (inject ex_cfg (sealed_init ex_cfg) r) = 200 /\ signer s = Some 1 /\ completeb ex_cfg s = true /\
   pubkeys s = [9; 2; 1] /\ ca_ders s = [2; 1] /\
@@ -221,4 +277,55 @@ Example c09_interleaving_example :
   transitions w = 1%nat /\ ready_sent (st w) = 1%nat /\ lock w = None /\
   map (fun t => length (prog t)) (threads w) = [0; 0; 0; 0; 0]%nat /\
   map obs (threads w) = [[]; [true; true]; []; []; [true; true; true]].
+Proof. vm_compute. repeat split; reflexivity. Qed.
+
+(* non-vacuity of the connection-record dimension: the same right passphrase on each shape of http.Request.TLS.
+   plain HTTP 500; empty state 403; presented only (self-signed 3 / foreign 4,5 / the admin certificate 1 unverified)
+   403; verified admin chain 200; verified chain of another CA (a user certificate) 200 as well - the handler has
+   no authorisation beyond "crypto/tls verified it"; verified chain with another certificate presented 200;
+   an empty first chain: panic, still sealed *)
+Example c09_connection_shapes :
+  let f := Some [112; 119] in
+  let run cs := let '(s', code) := inject ex_cfg (sealed_init ex_cfg) {| i_conn := cs; i_field := f |} in (code, is_some (signer s')) in
+  map run [None;
+           Some {| peer_certs := []; verified_chains := [] |};
+           Some {| peer_certs := [3]; verified_chains := [] |};
+           Some {| peer_certs := [4; 5]; verified_chains := [] |};
+           Some {| peer_certs := [1]; verified_chains := [] |};
+           Some {| peer_certs := [1]; verified_chains := [[1; 2]] |};
+           Some {| peer_certs := [7]; verified_chains := [[7; 8]] |};
+           Some {| peer_certs := [3]; verified_chains := [[1; 2]] |};
+           Some {| peer_certs := [3]; verified_chains := [[]] |};
+           Some {| peer_certs := [1]; verified_chains := [[]; [1; 2]] |}]
+  = [(500, false); (403, false); (403, false); (403, false); (403, false); (200, true); (200, true); (200, true);
+     (code_panic, false); (code_panic, false)].
+Proof. vm_compute. reflexivity. Qed.
+
+(* non-vacuity of c09_any_listener: the admin certificate (issuer 2, in the pool) over a verifying listener unseals;
+   a self-signed one (issuer = itself) is refused by the handshake there, reaches the handler over
+   RequestClientCert / RequireAnyClientCert and gets 403; an expired certificate of the admin CA likewise *)
+Example c09_listener_examples :
+  let f := Some [112; 119] in
+  let admin := {| c_id := 1; c_issuer := 2; c_expired := false |} in
+  let self := {| c_id := 3; c_issuer := 3; c_expired := false |} in
+  let old := {| c_id := 6; c_issuer := 2; c_expired := true |} in
+  let run pol x := let '(reached, s', code) := inject_over pol [2] ex_cfg (sealed_init ex_cfg) x f in (reached, code, is_some (signer s')) in
+  map (fun px => run (fst px) (snd px))
+      [(VerifyClientCertIfGiven, Some admin); (RequireAndVerifyClientCert, Some admin); (VerifyClientCertIfGiven, None);
+       (VerifyClientCertIfGiven, Some self); (RequestClientCert, Some self); (RequireAnyClientCert, Some self);
+       (RequireAnyClientCert, None); (RequestClientCert, Some old); (VerifyClientCertIfGiven, Some old);
+       (RequestClientCert, Some admin); (NoClientCert, Some admin)]
+  = [(true, 200, true); (true, 200, true); (true, 403, false);
+     (false, 0, false); (true, 403, false); (true, 403, false);
+     (false, 0, false); (true, 403, false); (false, 0, false);
+     (true, 403, false); (true, 403, false)].
+Proof. vm_compute. reflexivity. Qed.
+
+(* the observation predicate does flag what it is meant to flag: a run that reports "unsealed" after a
+   presented-only request (class 1) and after a verified request with a wrong passphrase (class 2) *)
+Example c09_observation_predicate_flags :
+  seq_violation ex_cfg true [{| i_conn := Some {| peer_certs := [3]; verified_chains := [] |}; i_field := Some [112; 119] |}]
+                [(200, 200, (true, true, 2%nat, 3%nat, 1%nat, true))] = 1 /\
+  seq_violation ex_cfg true [admin_inj (Some [120])] [(200, 200, (true, true, 2%nat, 3%nat, 1%nat, true))] = 2 /\
+  seq_violation ex_cfg true [admin_inj (Some [112; 119])] [(200, 200, (true, true, 2%nat, 3%nat, 1%nat, true))] = 0.
 Proof. vm_compute. repeat split; reflexivity. Qed.
